@@ -1,6 +1,6 @@
 (* C06 — scaling direction and taint rate follow the utilisation bands.  Theorems only. *)
 From Coq Require Import Reals.
-From Esc Require Import Examples proofs.FloatProofs proofs.FloatBands proofs.ScanTaint proofs.ScanRun proofs.ScanRunTheorems.
+From Esc Require Import Examples proofs.FloatProofs proofs.FloatBands proofs.ScanTaint proofs.ScanExact proofs.ScanRun proofs.ScanRunTheorems.
 Open Scope Z_scope.
 
 (* For every scan with non-negative rates slow <= fast (what validation admits) and a non-negative minimum: when the
@@ -56,3 +56,17 @@ Proof. vm_compute. reflexivity. Qed.
 Theorem c06_run_once : forall s, wf_groups s -> rates_ok s -> for_groups check_C06_group s (run_journals s) = true.
 Proof. exact run_passes_C06. Qed.
 Print Assumptions c06_run_once.
+
+(* a decided scale-up is acted on: whenever the scan's decision is to add N nodes (above the scale-up threshold, a trigger
+   that fired, or fewer untainted nodes than the minimum: need_of x = Some N), then — outside dry mode — if after the untaints
+   that succeeded nodes are still missing and min(max_nodes, cloud max) leaves room above the desired size, the journal shows
+   the cloud request (SetDesiredCapacity / CreateFleet, or in fleet mode at least the describe call the request starts with).
+   Together with c07_exact_remainder this fixes the amount; with c06_bands that nothing is tainted. *)
+Theorem c06_up_acted_on : forall now gdry api g a nodes pods,
+  check_up_attempted (ctx_of now gdry api g a nodes pods) (r_calls (scan_of now gdry api g a nodes pods)) = true.
+Proof. exact group_passes_up_attempted. Qed.
+Print Assumptions c06_up_acted_on.
+
+Theorem c06_up_acted_on_run_once : forall s, wf_groups s -> for_groups check_up_attempted s (run_journals s) = true.
+Proof. exact run_passes_up_attempted. Qed.
+Print Assumptions c06_up_acted_on_run_once.
